@@ -15,10 +15,10 @@ RULE = (
     "reference DC with a DH root key, same with ECDH_P256, protect naming a root key whose seed keys come from the DC and are then cached}; all tuples of 2..3 such protects IN FLIGHT CONCURRENTLY (async, one shared cache, replies released FIFO/LIFO) (repeating an operation = identical arguments) x cache {shared along the history, fresh per call} x {sync, async} x clock {fixed, advancing one L2 "
     "interval per call}; each history is run under a logging entropy source that never repeats a block (os.urandom and AESGCM.generate_key seams) and again under the real sources. From every emitted blob "
     "the GCM nonce, key_info (nonce / ephemeral public key), the CEK (unwrapped with the reference KEK) and the ciphertext are extracted. Oracle: within a history all CEKs, all GCM nonces and all key_infos "
-    "are pairwise distinct, equal plaintexts give different ciphertexts, GCM nonce is 12 bytes and the key-id nonce 32. state = history prefix; transition = one API call. Non-trivial = histories with >= 2 protects."
+    "are pairwise distinct, equal plaintexts give different ciphertexts, GCM nonce is 12 bytes and the key-id nonce 32. Threads: two OS threads calling the sync protect API at once on one shared cache under a controlled scheduler (baton; scheduling point = every source line of dpapi_ng): every schedule with <=1 preemption (thorough: <=2 at function-entry granularity), same oracle. state = history prefix / schedule; transition = one API call / one scheduling point. Non-trivial = histories with >= 2 protects."
 )
 ASSUME = ["distinctness is demanded, not equality with a logged draw, so an implementation using another OS entropy interface is judged on real randomness (false alarm needs a 96-bit collision)"]
-BOUND = {"quick": "depth 3 over all 6 ops + depth 4 over the 4 nonce-mode ops", "thorough": "depth 4 over all 6 ops + depth 5 over the 4 nonce-mode ops"}
+BOUND = {"quick": "2 thread pairs, preemption bound 1 at line granularity; depth 3 over all 6 ops + depth 4 over the 4 nonce-mode ops", "thorough": "6 thread pairs bound 1 (line), 1 pair bound 2 (function entry); depth 4 over all 6 ops + depth 5 over the 4 nonce-mode ops"}
 
 SID1, SID2 = "S-1-5-21-1-2-3-1104", "S-1-5-21-1-2-3-1105"
 P1, P2 = b"plaintext-one", b"plaintext-two!"
@@ -103,8 +103,10 @@ def run_history(w, hist: str, shared: bool, api: str, advancing: bool, real_entr
 _PROCESS_SEEN: t.Dict[str, t.Dict[bytes, t.Any]] = {"cek": {}, "gcm-nonce": {}, "key_info": {}}
 
 
-def judge(acc, w, hist: str, shared: bool, api: str, advancing: bool, real_entropy: bool, shard_case=None, concurrent=None) -> None:
-    if concurrent is not None:
+def judge(acc, w, hist: str, shared: bool, api: str, advancing: bool, real_entropy: bool, shard_case=None, concurrent=None, given=None) -> None:
+    if given is not None:
+        case, res, ent = given
+    elif concurrent is not None:
         case = ["conc", hist, concurrent, real_entropy]
         res, ent = run_concurrent(w, hist, concurrent, real_entropy)
     else:
@@ -205,8 +207,60 @@ def run_concurrent(w, ops: str, lifo: bool, real_entropy: bool):
     return out, ent
 
 
+THREAD_PAIRS = ["AA", "AB", "AC", "AF", "FF", "DD"]
+THREAD_PARTS = 8
+
+
+def thread_bodies(w, ops: str):
+    """two OS threads calling the sync API at once with one shared KeyCache (root key loaded for rkN; F/D go to the reference DC)"""
+    import dpapi_ng
+
+    cache = seams.make_cache(w["rkN"])
+    bodies = []
+    for op in ops:
+        pt, sid, rk = {"A": (P1, SID1, "rkN"), "B": (P2, SID1, "rkN"), "C": (P1, SID2, "rkN"), "D": (P1, SID1, "rkD"), "F": (P1, SID1, "rkS")}[op]
+        bodies.append(lambda pt=pt, sid=sid, rk=rk: dpapi_ng.ncrypt_protect_secret(pt, sid, root_key_identifier=w[rk].rkid, server="dc", username="u", password="p", auth_protocol="ntlm", cache=cache))
+    return bodies, cache
+
+
+def threads_explore(acc, w, ops: str, bound: int, part: int, parts: int, coarse: bool, only_choices=None) -> None:
+    from mc import explorer, threads
+
+    dc = refdc.DC([w["rkD"], w["rkE"], w["rkN"], w["rkS"]], now=NOW, authorised=False)
+    dc.authorised_roots = {w["rkS"].rkid}
+    ent = seams.Entropy(b"C19t")
+
+    def on(ch, s, res, ctx) -> None:
+        case = ["threads", ops, coarse, [[i, c] for i, c in enumerate(ch.choices) if c]]  # sparse: (choice point, non-default choice)
+        out = [(op, "ok", bytes(v)) if st == "ok" else (op, "exc", repr(v)) for op, (st, v) in zip(ops, res)]
+        judge(acc, w, ops, True, "sync", False, False, given=(case, out, ent))
+        acc.ev()
+        acc.states += 1
+        acc.transitions += len(ch.trace)
+        acc.set_add("thread_switch_points", tuple(s.switches))
+        acc.nt(("t", ops, tuple(s.switches)))
+
+    with seams.clock(FT0), transport.network(dc), secctx.scripted_client(_ctx), seams.entropy(ent):
+        if only_choices is not None:
+            ch = explorer.Chooser(only_choices)
+            bodies, ctx = thread_bodies(w, ops)
+            s = threads.Sched(ch, coarse)
+            on(ch, s, s.run(bodies), ctx)
+            return
+        st = threads.explore(lambda: thread_bodies(w, ops), bound, on, coarse=coarse, root_filter=lambda i: i % parts == part)
+    acc.stat_add("thread_schedules", st["executions"])
+    acc.stat_max("thread_choice_points_per_schedule", st["max_depth"])
+    acc.sample({"threads": [f"protect {o}" for o in ops], "preemption_bound": bound, "granularity": "function entry" if coarse else "source line", "schedules": st["executions"], "choice_points_per_schedule": st["max_depth"]})
+
+
 def shards(tier: str, seed: int):
     out = [["long", api] for api in ("sync", "async")] + [["conc"]]
+    for ops in (THREAD_PAIRS[:2] if tier == "quick" else THREAD_PAIRS):
+        for part in range(THREAD_PARTS):
+            out.append(["threads", ops, 1, part, THREAD_PARTS, False])
+    if tier == "thorough":
+        for part in range(32):
+            out.append(["threads", "AA", 2, part, 32, True])
     depth = 4 if tier == "quick" else 5
     for first in OPS:
         for shared in (True, False):
@@ -220,6 +274,10 @@ def run_shard(shard, tier, seed, acc) -> None:
     w = world(seed)
     for d_ in _PROCESS_SEEN.values():
         d_.clear()  # per shard, so that a shard is a self-contained, replayable unit
+    if shard[0] == "threads":
+        _, ops, bound, part, parts, coarse = shard
+        threads_explore(acc, w, ops, bound, part, parts, coarse)
+        return
     if shard[0] == "conc":
         n = 0
         for k in (2, 3):
@@ -271,6 +329,12 @@ def replay(case, seed, acc) -> None:
     acc.ev()
     if case[0] == "conc":
         judge(acc, world(seed), case[1], True, "async", False, case[3], None, concurrent=case[2])
+        return
+    if case[0] == "threads":
+        dense = [0] * (max([i for i, _ in case[3]] or [-1]) + 1)
+        for i, c in case[3]:
+            dense[i] = c
+        threads_explore(acc, world(seed), case[1], 0, 0, 1, case[2], only_choices=dense)
         return
     _, hist, shared, api, advancing, real = case
     judge(acc, world(seed), hist, shared, api, advancing, real)
